@@ -27,7 +27,7 @@ C08_INV = ["NoOverdraw", "Accounting", "FreeNeverNegative"]
 C09_INV = ["ReadsWhatWasWritten", "BytesStable", "SegmentPresent", "FreshReaderProtected", "LockSane", "CountSane"]
 ALL = C08_INV + C09_INV
 PROP_OF_INV = {**{i: "C08" for i in C08_INV}, **{i: "C09" for i in C09_INV},
-               "DelayedPurgeTakesEffect": "C09", "EvictionProgress": "C09", "Temporal": "C09"}
+               "ActionProperty_ShmAcct": "C08", "AcctRefines": "C08", "DelayedPurgeTakesEffect": "C09", "EvictionProgress": "C09", "Temporal": "C09"}
 # conformance differences: which property a differing field speaks about
 FIELD_PROP = {"free": "C08", "answer_grant_early": "C08",
               "answer": "C09", "st": "C09", "fresh": "C09", "stale": "C09", "cstale": "C09", "reads": "C09",
@@ -49,6 +49,14 @@ MC_MOD = '---- MODULE MC ----\nEXTENDS Shm\nMC_Size == [a |-> 2, b |-> 2, c |-> 
 MC_MOD2 = '---- MODULE MC ----\nEXTENDS Shm\nMC_Size == [a |-> 1, b |-> 2]\n====\n'
 
 
+# refinement: outside the recorded known patterns, Shm.tla implements the accounting skeleton spec/ShmAcct.tla, whose invariant
+# Apalache proves inductive for every capacity and every size function (harness/props/c08.py)
+MC_REFINE = ('---- MODULE MC ----\nEXTENDS Shm\nMC_Size == [a |-> 2, b |-> 2, c |-> 3]\n'
+             'Acct == INSTANCE ShmAcct WITH ast <- [k \\in Key |-> IF st[k] \\in Resident THEN "resident" ELSE IF st[k] = "on_disk" THEN "on_disk" ELSE "absent"],\n'
+             '                              afree <- free, pend <- PendingCredit\n'
+             'SpecUntainted == Init /\\ [][Next /\\ tainted\' = {}]_vars\nAcctRefines == Acct!ASpec\n====\n')
+
+
 def configs(quick: bool) -> list[dict]:
     """Model-checking runs: (name, constants, which invariants (U = outside the recorded known patterns))."""
     U = [i + "U" for i in ALL] + ["ExitLeavesNoSegment"]
@@ -59,6 +67,8 @@ def configs(quick: bool) -> list[dict]:
         {"name": "two_keys_deep", "mod": MC_MOD2,
          "c": consts(Key='{"a", "b"}', Cap="2", MaxClock="6" if quick else "9", AllowFail="TRUE", AllowStale="TRUE",
                      MaxReaders="2"), "inv": U, "props": ["DelayedPurgeTakesEffect"]},
+        {"name": "refines_acct", "mod": MC_REFINE, "c": consts(AllowFail="TRUE", AllowStale="TRUE", MaxClock="4" if quick else "5"),
+         "inv": [], "props": ["AcctRefines"], "spec": "SpecUntainted", "view": True},
         # eviction liveness: with fair job completion a held batch lock is eventually released
         {"name": "liveness", "c": consts(MaxClock="4"), "inv": ["LockSaneU"], "props": ["EvictionProgress"],
          "spec": "FairSpec"},
@@ -81,8 +91,8 @@ def known_pattern_runs() -> list[dict]:
 
 def _mc(scratch: Path, run: dict, workers: int) -> dict:
     cfg = tlc.cfg_text(spec=run.get("spec", "Spec"), constants=run["c"], invariants=["TypeOK"] + run["inv"],
-                       properties=run.get("props") or None, view=None if run.get("spec") == "FairSpec" else "view")
-    d = tlc.stage(scratch, "mc_" + run["name"], ["Shm"], {"MC.tla": run.get("mod", MC_MOD), "MC.cfg": cfg})
+                       properties=run.get("props") or None, view="view" if run.get("view") or run.get("spec", "Spec") == "Spec" else None)
+    d = tlc.stage(scratch, "mc_" + run["name"], ["Shm", "ShmAcct"], {"MC.tla": run.get("mod", MC_MOD), "MC.cfg": cfg})
     r = tlc.check(d, "MC", workers=workers, coverage=True, timeout=1500, light=False, heap="8g", deadlock=False)
     tlc.require_clean(r, "Shm model checking " + run["name"])
     trace = tlc.parse_error_trace(r.out) if r.violated else []
@@ -186,7 +196,7 @@ def _eval_observed(scratch: Path, observed: list[list[dict]], keys: dict, cap: i
 def _key() -> str:
     h = hashlib.sha256()
     h.update(repo_hash("cascade/shm").encode())
-    for f in [ROOT / "spec" / "Shm.tla", ROOT / "harness" / "shm_engine.py", ROOT / "harness" / "drive" / "shm.py",
+    for f in [ROOT / "spec" / "Shm.tla", ROOT / "spec" / "ShmAcct.tla", ROOT / "harness" / "shm_engine.py", ROOT / "harness" / "drive" / "shm.py",
               ROOT / "harness" / "tlc.py"]:
         h.update(f.read_bytes())
     return h.hexdigest()[:20]
